@@ -220,6 +220,10 @@ def _known_nonneg(st, t):
             yield a
 
     zero = z3.IntVal(0)
+    from . import lia
+
+    if lia.entails(list(getattr(st, "pc", ())), t >= 0):
+        return True
     for a in getattr(st, "pc", ()):
         for c in conj(a):
             if z3.is_ge(c) and c.arg(0).eq(t) and c.arg(1).eq(zero):
@@ -414,7 +418,7 @@ def str_slice(s, lo, hi, st=None):
         from . import lia
 
     def literal(k):
-        if pc is not None and lia.entails(pc, n >= k):
+        if k == 0 or (pc is not None and lia.entails(pc, n >= k)):
             return z3.IntVal(k)
         return z3.If(n < k, n, z3.IntVal(k))
 
@@ -430,6 +434,8 @@ def str_slice(s, lo, hi, st=None):
         hi_t = literal(hi)
     else:
         hi_t = norm_index(lift(hi, "int"), n, st)
+    if z3.is_int_value(lo_t) and lo_t.as_long() == 0 and hi_t.eq(n):
+        return SV("str", t)  # s[:len(s)] / s[0:] is s
     if pc is not None and lia.entails(pc, hi_t >= lo_t):
         ln = z3.simplify(hi_t - lo_t)
     else:
